@@ -136,6 +136,19 @@ func (e *Engine) binop(f *Frame, st *State, op token.Token, x, y Val, rt types.T
 				r = fmt.Sprintf("(mod %s %d)", x.S, n+1)
 			} else if n, ok := constIntString(x.S); ok && n >= 0 && (n+1)&n == 0 {
 				r = fmt.Sprintf("(mod %s %d)", y.S, n+1)
+			} else if n, ok := constIntString(y.S); ok && n > 0 && n&(n-1) == 0 && isUnsigned(b) {
+				r = fmt.Sprintf("(* %d (mod (div %s %d) 2))", n, x.S, n)
+			}
+		case token.OR:
+			// single-bit masks on unsigned values
+			if n, ok := constIntString(y.S); ok && n > 0 && n&(n-1) == 0 && isUnsigned(b) {
+				r = fmt.Sprintf("(+ %s (* %d (- 1 (mod (div %s %d) 2))))", x.S, n, x.S, n)
+			} else if n, ok := constIntString(x.S); ok && n > 0 && n&(n-1) == 0 && isUnsigned(b) {
+				r = fmt.Sprintf("(+ %s (* %d (- 1 (mod (div %s %d) 2))))", y.S, n, y.S, n)
+			}
+		case token.AND_NOT:
+			if n, ok := constIntString(y.S); ok && n > 0 && n&(n-1) == 0 && isUnsigned(b) {
+				r = fmt.Sprintf("(- %s (* %d (mod (div %s %d) 2)))", x.S, n, x.S, n)
 			}
 		}
 		if r == "" {
